@@ -493,8 +493,17 @@ class BuiltinMixin:
                 raise Unsupported("min/max over symbolic iterable")
             args = items
 
+        if not args:
+            return [self.raised(st, "ValueError", "min()/max() arg is an empty sequence")]
+
         def f(s, typed):
             terms = [self.num_term(a) for a in typed]
+            if all(isinstance(a, VStr) for a in typed):
+                # strings order lexicographically by code point (z3 str.< is that order)
+                acc = typed[0].t
+                for a in typed[1:]:
+                    acc = z3.If(a.t < acc, a.t, acc) if is_min else z3.If(a.t > acc, a.t, acc)
+                return [(s, VStr(acc))]
             if any(t is None for t in terms):
                 if all(isinstance(a, (VInt, VBool, VStr, VNone, VFlt, VU, VOpaque)) for a in typed):
                     if all(isinstance(a, (VInt, VBool, VFlt)) for a in typed):
